@@ -35,7 +35,7 @@ fn reciprocal(tag: &str, t: Cmplx, c: Cmplx) {
     prove(&format!("{}: imaginary part times |.|^2", tag), eq(t.imag * den, -c.imag));
     let (u, v, a, b) = (Sym::var("U"), Sym::var("V"), Sym::var("A"), Sym::var("Bq"));
     let d = a * a + b * b;
-    prove("reciprocal step: u|c|^2 = Re c, v|c|^2 = -Im c, c != 0 imply (u+iv) c = 1",
+    prove_closed("reciprocal step: u|c|^2 = Re c, v|c|^2 = -Im c, c != 0 imply (u+iv) c = 1",
         B::implies(B::and(vec![ne(d, z()), eq(u * d, a), eq(v * d, -b)]), B::and(vec![eq(u * a - v * b, one()), eq(u * b + v * a, z())])));
 }
 
